@@ -106,11 +106,30 @@ class Ctx:
             extra = json.load(open(os.path.join(ROOT, "props", "compose.json"))).get(self.id, [])
         except (OSError, ValueError):
             extra = []
-        modules = list(modules) + [m for m in extra if m not in modules]
+        modules = list(modules)
+        extra = [m for m in extra if m not in modules]
         targets = list(modules) + ([exe_t] if exe else [])
         ok, out = self.lake(targets)
         self.lake_log = out
         thms = {}
+        # A composition module imports the property modules of OTHER properties too. When it does not build because one
+        # of THOSE no longer builds (their source facts changed), that is the other property's obligation and is reported
+        # by its own check; this property is then decided without the composition. When the composition module itself (or
+        # this property's own modules) fails, it is a failed obligation here.
+        for m in extra:
+            okx, outx = self.lake([m])
+            if okx:
+                modules.append(m)
+                continue
+            failedx = sorted(set(re.findall(r"^- (\S+)", outx, re.M)))
+            foreign = [f for f in failedx if "Compose" not in f and re.search(r"C\d\d", f) and self.id not in f]
+            if foreign:
+                self.log(f"composition module {m} not decided here: upstream module(s) {','.join(foreign)} do not build "
+                         f"(reported by the owning property's check)")
+                self.compose_skipped = getattr(self, "compose_skipped", []) + [(m, foreign)]
+            else:
+                errs = re.findall(r"^error: (.*)$", outx, re.M)
+                self.oblige("lake-build:" + (",".join(failedx) or m), False, "\n".join(errs[:12]))
         if not ok:
             failed = sorted(set(re.findall(r"^- (\S+)", out, re.M)))
             errs = re.findall(r"^error: (.*)$", out, re.M)
